@@ -234,6 +234,7 @@ Close ==
            ev1 == CssEndEvent(con1)
            sig == IF ev = "" THEN ""
                   ELSE IF b = "" THEN "InnocuousValueNotClean"
+                  ELSE IF ev = "EndAttr" THEN "StyleAttr.NotEscaped"                       \* the value reached the attribute with no HTML escaping at all
                   ELSE IF ~TrackAttribution THEN b
                   ELSE IF ctx = "attr" /\ ev1 = "" THEN "StyleAttr.DoubleEscape"          \* clean with one level of escaping
                   ELSE Attribute(cls, acc, b)
